@@ -18,9 +18,14 @@ def concretise(progs, pid, tier, seed, mult, bset=REAL_B, allk=False, kinds=None
         for m in range(mult):
             B = rnd.choice(bset)
             conns = []
-            for c in p["conns"]:
+            Bs = []
+            for ci, c in enumerate(p["conns"]):
                 cc = dict(c)
-                cc["wbuf"] = B
+                # connections that share a pool / prepared messages may have different buffer sizes
+                # (mixed only among moderate sizes: a pooled 1-byte buffer under a 128 KiB message would mean 10^5 frames)
+                mix = [b for b in bset if 16 <= b <= 4096]
+                cc["wbuf"] = B if (ci == 0 or B not in mix or rnd.random() < 0.5) else rnd.choice(mix)
+                Bs.append(cc["wbuf"])
                 if force:
                     cc.update(force)
                 conns.append(cc)
@@ -28,7 +33,7 @@ def concretise(progs, pid, tier, seed, mult, bset=REAL_B, allk=False, kinds=None
             for o in p["ops"]:
                 q = {k: v for k, v in o.items() if k != "size"}
                 if "size" in o:
-                    q["n"] = sz(o["size"], B)
+                    q["n"] = sz(o["size"], Bs[o.get("c", 0)] if o.get("c", 0) < len(Bs) else B)
                     if o["op"] == "WR" and o.get("via") == "rf":
                         n = q["n"]
                         k = rnd.choice([1, 2, 3])
@@ -140,6 +145,7 @@ def run_writer_check(pid, tier, groups, bset=REAL_B, assumptions=(), level="mode
     if res["traces"] < len(conc):
         raise core.Infra("trace count mismatch: %d programs, %d traces" % (len(conc), res["traces"]))
     violations = []
+    unrepro = []
     for rj in res["rejections"][:6]:
         tid = rj["tid"]
         base = tid.split("/")[0]
@@ -166,13 +172,18 @@ def run_writer_check(pid, tier, groups, bset=REAL_B, assumptions=(), level="mode
             # not reproducible alone: does it depend on what ran before it in the same process?
             seq = core.history_of(conc, base)
             hit = []
-            if seq:
-                core.rundir(rname)
-                f3 = core.drive("writer", seq, rname, shards=1)
+            for attempt in range(3 if seq else 0):
+                f3 = core.drive_history("writer", seq, rname, attempt)
                 r3 = core.validate("WSWriterTrace.tla", "WSWriterTrace.cfg", f3, rname, max_rej=50)
-                hit = [x for x in r3["rejections"] if x["tid"].split("/")[0] == base]
+                # any rejection in the re-run of the history counts: the behaviour was observed twice on the real code
+                hit = [x for x in r3["rejections"] if x["tid"].split("/")[0] == base] or r3["rejections"][:1]
+                if hit:
+                    base = hit[0]["tid"].split("/")[0]
+                    seq = core.history_of(seq, base, shards=1)
+                    break
             if not hit:
-                raise core.Infra("rejection of %s did not reproduce" % tid)
+                unrepro.append(tid)
+                continue
             violations.append(core.save_replay(pid, "writer", dict(id=base, batch=seq), hit[0]["trace"],
                                                "event %d not explained by WSWriter (only after the %d programs that ran before it in the same process): %s" % (
                                                    hit[0]["index"], len(seq) - 1, json.dumps(hit[0]["event"])[:500])))
@@ -180,6 +191,8 @@ def run_writer_check(pid, tier, groups, bset=REAL_B, assumptions=(), level="mode
         rj2 = r2["rejections"][0]
         path = core.save_replay(pid, "writer", prog, rj2["trace"], "event %d not explained by WSWriter: %s" % (rj2["index"], json.dumps(rj2["event"])[:600]))
         violations.append(path)
+    if unrepro and not violations:
+        raise core.Infra("rejection of %s did not reproduce (alone, and three times with its history)" % ", ".join(unrepro[:3]))
     distinct = len({key_of(p) for p in progs})
     samples = [dict(program={k: conc[i][k] for k in conc[i] if k != "id"}) for i in (0, len(conc) // 2, len(conc) - 1)]
     cov = dict(states=states, transitions=trans, traces_validated_against_impl=res["traces"],
